@@ -124,6 +124,12 @@ func (g *c07gen) stmt(depth int, inLoop map[string]bool) []gen.Node {
 		if k == 1 {
 			return []gen.Node{&gen.NSetCap{Name: t, Body: []gen.Node{tx("cap" + strconv.Itoa(g.uniq()))}}}
 		}
+		switch r.Intn(6) {
+		case 0: // a variable may exist and hold null, false, zero or the empty string
+			return []gen.Node{&gen.NSet{Name: t, X: &gen.ENull{}}}
+		case 1:
+			return []gen.Node{&gen.NSet{Name: t, X: []gen.Expr{&gen.EBool{V: false}, num(0), str("")}[r.Intn(3)]}}
+		}
 		return []gen.Node{&gen.NSet{Name: t, X: num(100 + g.uniq())}}
 	case 2, 3:
 		// for loop with loop variables drawn from the pool (collisions are the norm)
@@ -262,8 +268,12 @@ func (p *c07) build(i int) (*Program, *c07gen) {
 	ctx := map[string]interface{}{}
 	// some pool names come from the context
 	for _, n := range c07Pool {
-		if r.Intn(3) == 0 {
+		switch r.Intn(8) {
+		case 0, 1:
 			ctx[n] = "ctx-" + n
+			g.defined[n] = true
+		case 2: // defined, but null / false / zero / empty
+			ctx[n] = []interface{}{nil, false, 0, ""}[r.Intn(4)]
 			g.defined[n] = true
 		}
 	}
@@ -302,7 +312,7 @@ func (p *c07) Run(i int) (res fw.Result) {
 }
 
 func (p *c07) Rule() string {
-	return "cases: seeded nestings (depth<=4) of set, set-capture, for (with and without key), if and macro calls over a 4-name pool (a,b,c,d; some also given by the context) so that collisions between loop variables, macro parameters and outer variables are the norm. After every statement, at the start of every loop body and macro body, a probe prints which pool names are visible and their values (a registered function reading Context.Scope(), mirrored by the model), and the template ends with a direct read of one pool name (undefined reads as null). Oracle: reference model with the scoping rules of the statement. Excluded, as behaviour the statement leaves open: assigning to a name currently bound by an enclosing loop or macro parameter; a name first set inside a loop body is set at the very start of the body (so it is never read in iteration n+1 before being set); macro bodies only look at their parameters and their own names (m1, m2), which are never used outside macros. Non-trivial = at least one collision between a local and an outer name; distinct = statement sequence with names."
+	return "cases: seeded nestings (depth<=4) of set, set-capture, for (with and without key), if and macro calls over a 4-name pool (a,b,c,d; some also given by the context, some holding null, false, 0 or the empty string) so that collisions between loop variables, macro parameters and outer variables are the norm. After every statement, at the start of every loop body and macro body, a probe prints which pool names are visible and their values (a registered function reading Context.Scope(), mirrored by the model), and the template ends with a direct read of one pool name (undefined reads as null). Oracle: reference model with the scoping rules of the statement. Excluded, as behaviour the statement leaves open: assigning to a name currently bound by an enclosing loop or macro parameter; a name first set inside a loop body is set at the very start of the body (so it is never read in iteration n+1 before being set); macro bodies only look at their parameters and their own names (m1, m2), which are never used outside macros. Non-trivial = at least one collision between a local and an outer name; distinct = statement sequence with names."
 }
 
 func (p *c07) Assumptions() []string {
